@@ -2,7 +2,7 @@
     Only property theorems here, each closed by [exact]/[vm_compute] of a lemma from Proofs15*.v.
     Inventory: Gen/GenScannerFields.v (regenerated from /repo on every run); classification: Classify15.v. *)
 From Coq Require Import String List NArith Bool.
-From XV Require Import Gen.GenScannerFields C15.Classify15 C15.Model15 C15.Proofs15 C15.Pool15 C15.ProofsPool15 C15.DocPool15.
+From XV Require Import Gen.GenScannerFields C15.Classify15 C15.Model15 C15.Proofs15 C15.Pool15 C15.ProofsPool15 C15.DocPool15 C15.SInfo15.
 Import ListNotations.
 Local Open Scope string_scope.
 
@@ -157,3 +157,30 @@ Print Assumptions T15_token.
 Theorem T15_token_other_scanner : forall s s', scanner_id s <> scanner_id s' -> legal s' (issue s) = false.
 Proof. exact token_other_scanner. Qed.
 Print Assumptions T15_token_other_scanner.
+
+(** ------------------------------------------------------------------------------------------------
+    the SchemaInfo tables (model: SInfo15.v; rows: Gen.cache_list_uses, regenerated from resolveSchemaGrammar /
+    loadXMLSchemaGrammar of IG and SG on every run) *)
+Local Open Scope string_scope.
+
+(** GENERATED OBLIGATION: at every place where new SchemaInfo objects are stored, the persistent table is selected by
+    the cache-from-parse flag (fToCacheGrammar / toCache) and by nothing else; look-ups in the persistent table are
+    governed by fUseCachedGrammar; the transient table is consulted only when not caching *)
+Theorem T15_cache_lists : cache_lists_check = true.
+Proof. vm_compute. reflexivity. Qed.
+Print Assumptions T15_cache_lists.
+
+(** ... and whenever the store selection is the cache-from-parse flag, every "already seen" entry stands for a grammar
+    that is still reachable, after any sequence of resets, schema loads under any flags, and pool resets *)
+Theorem T15_seen_reachable : forall sel, (forall use tocache, sel use tocache = tocache) ->
+  forall ops k use tocache, seen (srun sel ops sinit) k use tocache = true ->
+  (use = true /\ memN k (poolG (srun sel ops sinit)) = true) \/ memN k (bucketG (srun sel ops sinit)) = true.
+Proof. exact seen_reachable. Qed.
+Print Assumptions T15_seen_reachable.
+
+(** the selection by fUseCachedGrammar (the mutation class) breaks it: useCachedGrammarInParse without
+    cacheGrammarFromParse, the same schema in two consecutive parses: seen, but its grammar is gone *)
+Example T15_seen_wrong_flag_refuted :
+  let s := srun (fun use _ => use) [SReset; SLoad 1 true false; SReset] sinit in
+  seen s 1 true false = true /\ memN 1 (poolG s) = false /\ memN 1 (bucketG s) = false.
+Proof. vm_compute. repeat split. Qed.
